@@ -87,6 +87,26 @@ type analyzer struct {
 	escaped      map[string]bool            // closures that are stored or passed on: they run in an unknown goroutine
 	config       []string
 	alias        map[string]*ast.SelectorExpr // local variable -> the slice/map-typed field whose contents it shares
+	messages     map[string]bool              // struct types that are messages (ownership passes with them): not audited
+	varTypes     map[string]string            // variables of the current function (receiver, parameters, locals seen) -> struct type of the package
+}
+
+// noteVar remembers the struct type (of this package) a variable points to, so that a lock "v.mu" held while a mutex-less
+// struct is accessed can be named "T.mu"
+func (a *analyzer) noteVar(id *ast.Ident) {
+	var obj types.Object
+	if o, ok := a.info.Uses[id]; ok {
+		obj = o
+	} else if o, ok := a.info.Defs[id]; ok {
+		obj = o
+	}
+	v, ok := obj.(*types.Var)
+	if !ok || v == nil {
+		return
+	}
+	if n, _ := structOf(v.Type()); n != nil && n.Obj().Pkg() == a.pkg {
+		a.varTypes[id.Name] = n.Obj().Name()
+	}
 }
 
 func (a *analyzer) edge(from, to string) {
@@ -189,9 +209,6 @@ func (a *analyzer) recordAccess(se *ast.SelectorExpr, L lockset, write bool) {
 		return
 	}
 	ms := mutexFields(st)
-	if len(ms) == 0 {
-		return
-	}
 	fv, ok := sel.Obj().(*types.Var)
 	if !ok {
 		return
@@ -204,6 +221,21 @@ func (a *analyzer) recordAccess(se *ast.SelectorExpr, L lockset, write bool) {
 	for _, m := range ms {
 		if md, ok := L[base+"."+m]; ok {
 			held[m] = md
+		}
+	}
+	if len(ms) == 0 && a.messages[named.Obj().Name()] {
+		return // a message: owned by one goroutine at a time and handed on through channels and queues
+	}
+	if len(ms) == 0 {
+		// a struct without a mutex of its own (e.g. the entries of a table): it can only be guarded by a mutex of the object
+		// that owns it; the locks held are named after the owner's type, "Owner.mutexField"
+		for k, md := range L {
+			i := strings.Index(k, ".")
+			if i < 0 {
+				held[k] = md // a package-level mutex
+			} else if t, ok := a.varTypes[k[:i]]; ok {
+				held[t+k[i:]] = md
+			}
 		}
 	}
 	root := base
@@ -307,6 +339,7 @@ func (a *analyzer) expr(e ast.Expr, L lockset, write bool) {
 	switch v := e.(type) {
 	case nil:
 	case *ast.Ident:
+		a.noteVar(v)
 		a.recordGlobal(v, L, write)
 		if se, ok := a.alias[v.Name]; ok {
 			// the local variable shares the backing store of the field it was copied from
@@ -765,6 +798,19 @@ func (a *analyzer) analyzeFuncs(files []*ast.File) {
 			a.litN = 0
 			a.fresh = map[string]bool{}
 			a.alias = map[string]*ast.SelectorExpr{}
+			a.varTypes = map[string]string{}
+			if fd.Recv != nil {
+				for _, f := range fd.Recv.List {
+					for _, id := range f.Names {
+						a.noteVar(id)
+					}
+				}
+			}
+			for _, f := range fd.Type.Params.List {
+				for _, id := range f.Names {
+					a.noteVar(id)
+				}
+			}
 			L := lockset{}
 			if e := a.entry[fn]; e != nil {
 				L = e.clone()
@@ -779,6 +825,7 @@ func coqString(s string) string { return "\"" + strings.ReplaceAll(s, "\"", "'")
 func main() {
 	out := flag.String("out", "", "Coq file to write")
 	repo := flag.String("repo", "/repo", "repository root")
+	messages := flag.String("messages", "", "comma separated struct types whose objects are messages handed from goroutine to goroutine (not audited)")
 	config := flag.String("config", "", "comma separated functions that run only while a topology / object is being set up, before it is used concurrently")
 	flag.Parse()
 	var all []access
@@ -815,6 +862,10 @@ func main() {
 				sites: map[*types.Func][]lockset{}, recvName: map[*types.Func]string{}, ifaceMethods: map[string]bool{}, fnName: map[*types.Func]string{}}
 			if *config != "" {
 				a.config = strings.Split(*config, ",")
+				a.messages = map[string]bool{}
+				for _, m := range strings.Split(*messages, ",") {
+					a.messages[m] = true
+				}
 			}
 			// receiver names, interface method names
 			var funcs []*types.Func
